@@ -226,8 +226,18 @@ struct Policies {
 // are not generated for this variant.  A second prototype is present so that slots are re-typed.
 #include <eventpp/hetereventqueue.h>
 using Queue = eventpp::HeterEventQueue<int, eventpp::HeterTuple<void(long), void(const std::string &)>, Policies>;
+#elif defined(VQ_INCLUDE)
+// the event is part of the prototype: enqueue(1, payload) goes through the OTHER enqueue overload (event included)
+using Queue = eventpp::EventQueue<int, void(int, long), Policies>;
 #else
 using Queue = eventpp::EventQueue<int, void(long), Policies>;
+#endif
+#ifdef VQ_INCLUDE
+#define CBARGS int, long payload
+#define PAYLOAD_IDX 1
+#else
+#define CBARGS long payload
+#define PAYLOAD_IDX 0
 #endif
 
 static void hookPoint(const char * tag) {
@@ -258,7 +268,7 @@ static void runOne(const Run & r) {
 		s.qm = &q.queueListMutex;
 		s.ec = &q.queueEmptyCounter;
 		s.nc = &q.queueNotifyCounter;
-		q.appendListener(1, [&](long payload) {
+		q.appendListener(1, [&](CBARGS) {
 			// a dispatch is one model step (for processIf / processUntil the predicate call is the step)
 			std::string call = tl_call;
 			if(call == "proc" || call == "one") { yieldPoint(); g->step("cb"); }
@@ -290,7 +300,7 @@ static void runOne(const Run & r) {
 						else if(c == "one") rets[t].push_back(q.processOne() ? "true" : "false");
 						else if(c == "ifE" || c == "ifO") {
 							bool keepOdd = c == "ifO";
-							bool res = q.processIf([&](long payload) -> bool {
+							bool res = q.processIf([&](CBARGS) -> bool {
 								yieldPoint(); g->step("pred");
 								long gid; { std::lock_guard<std::mutex> lk(s.m); gid = s.gidOf[payload]; }
 								bool keep = keepOdd ? (gid % 2 == 1) : (gid % 2 == 0);
@@ -301,7 +311,7 @@ static void runOne(const Run & r) {
 #ifndef VQ_HETER
 						else if(c == "untE" || c == "untO") {
 							bool stopOdd = c == "untO";
-							bool res = q.processUntil([&](long payload) -> bool {
+							bool res = q.processUntil([&](CBARGS) -> bool {
 								yieldPoint(); g->step("pred");
 								long gid; { std::lock_guard<std::mutex> lk(s.m); gid = s.gidOf[payload]; }
 								// true = stop here: this event and everything behind it go back to the queue
@@ -314,8 +324,8 @@ static void runOne(const Run & r) {
 							bool res = q.takeEvent(&ev);
 							if(res) {
 								std::lock_guard<std::mutex> lk(s.m);
-								consumed.push_back(std::to_string(s.gidOf[std::get<0>(ev.arguments)]) + " taken " + std::to_string(t));
-								s.log.push_back("note " + std::to_string(t) + " taken " + std::to_string(s.gidOf[std::get<0>(ev.arguments)]));
+								consumed.push_back(std::to_string(s.gidOf[std::get<PAYLOAD_IDX>(ev.arguments)]) + " taken " + std::to_string(t));
+								s.log.push_back("note " + std::to_string(t) + " taken " + std::to_string(s.gidOf[std::get<PAYLOAD_IDX>(ev.arguments)]));
 							}
 							rets[t].push_back(res ? "true" : "false");
 						}
@@ -368,7 +378,7 @@ static void runOne(const Run & r) {
 		for(auto it = q.queueList.begin(); it != q.queueList.end(); ++it)
 			ql += " " + std::to_string(s.gidOf[std::get<0>(it->template get<Queue::QueuedItem<std::tuple<long>>>().arguments)]);
 #else
-		for(auto it = q.queueList.begin(); it != q.queueList.end(); ++it) ql += " " + std::to_string(s.gidOf[std::get<0>(it->get().arguments)]);
+		for(auto it = q.queueList.begin(); it != q.queueList.end(); ++it) ql += " " + std::to_string(s.gidOf[std::get<PAYLOAD_IDX>(it->get().arguments)]);
 #endif
 		std::puts(ql.c_str());
 		std::printf("counters %d %d\n", (int)q.queueEmptyCounter.value, (int)q.queueNotifyCounter.value);
